@@ -371,7 +371,7 @@ def run(ctx, report: Report) -> None:
     # ---- R8 (texts compiled by interpretation, bounded) -----------------------------------------------------------------
     r8 = report.rule('C20-R8', 'the offset of every SelectorSyntaxError lies inside the pattern (texts over an alphabet of fragments; bounded)', floor=1)
     from .e2etab import error_type_table
-    error_type_table(ctx, r8, depth=1 if ctx.tier == 'quick' else 2, custom_too=False)
+    error_type_table(ctx, r8, depth=1 if ctx.tier == 'quick' else 2, custom_too=True)
     r8.findings[:] = [f for f in r8.findings if 'error offset' in f.key]
 
 
